@@ -68,6 +68,8 @@ def gen_db(rng, j):
         summary += [(18, 30, "app"), (3, 0, None), (6, 1, None), (19, 16, -3)]
     if page != 65001:
         summary.insert(0, (1, 2, page - 0x10000 if page >= 0x8000 else page))
+    elif j % 5 == 0:
+        summary.append((0, 0, None))           # no code page property at all: the default (UTF-8) applies
     streams = {"Bin.dat": [rng.randint(0, 255) for _ in range(rng.choice([0, 5, 300]))]} if rng.random() < 0.6 else {}
     opts = dict(long_refs=(j % 3 == 1), holes=rng.choice([0, 0.2]), dups=rng.choice([0, 0.3]), overcount=rng.choice([0, 0.3]), stale=rng.choice([0, 0.25]),
                 validation=(j % 5 != 2), shuffle_catalog=(j % 4 == 3), odd_int_sizes=(j % 6 == 4),
